@@ -16,7 +16,7 @@ import (
 func init() {
 	register("C15",
 		"week-index arithmetic, the contents of GetWeeks, and whether the month-separated week walk visits exactly one (month, week) position per step (after the repair of the shadowed variable the walk still mis-steps for some (first weekday, n); that residue is arithmetic and invisible to these rules).",
-		r15_1, r15_2, r15_3, r15_4, r15_5, r15_6, r15_7, r07_1)
+		r15_1, r15_2, r15_3, r15_4, r15_5, r15_6, r15_7, r15_8, r07_1)
 }
 
 // steppingMethods: methods named Next* whose first non-receiver parameter is an int.
@@ -348,13 +348,14 @@ func intConstUses(fn *ssa.Function) []constUse {
 
 func r15_4(c *Ctx, r *Report) {
 	const rule = "R15.4"
-	r.rule(rule, "Day lists are built by stepping, not by enumerating day numbers. SolarMonth.GetDays pushes the first day and then firstDay.NextDay(i) for i = 1 .. days-1 with days = GetDaysOfMonth(own year, own month); SolarWeek.GetDays pushes GetFirstDay() and firstDay.NextDay(i) for i = 1..6. Day numbers are not contiguous in October 1582, so constructing days by number requests a day that does not exist.")
+	r.rule(rule, "Day lists are built by stepping, not by enumerating day numbers. SolarMonth.GetDays lists firstDay.NextDay(i) for i = 0 .. days-1 (the first day pushed separately and the loop from 1, or the loop from 0) with days = GetDaysOfMonth(own year, own month); SolarWeek.GetDays does the same from GetFirstDay() for 7 days. Day numbers are not contiguous in October 1582, so constructing days by number requests a day that does not exist.")
 	for _, name := range []string{"calendar.(*SolarMonth).GetDays", "calendar.(*SolarWeek).GetDays"} {
 		fn := c.Fn(r, rule, name)
 		if fn == nil {
 			continue
 		}
 		var kinds []string
+		var counter *ssa.Phi
 		for _, b := range fn.Blocks {
 			for _, ins := range b.Instrs {
 				call, ok := ins.(*ssa.Call)
@@ -378,11 +379,12 @@ func r15_4(c *Ctx, r *Report) {
 						k = "first"
 					case "calendar.(*Solar).NextDay":
 						base, okb := vc.Common().Args[0].(*ssa.Call)
-						_, isPhi := vc.Common().Args[1].(*ssa.Phi)
+						phi, isPhi := vc.Common().Args[1].(*ssa.Phi)
 						if okb && base.Common().StaticCallee() != nil && isPhi {
 							bn := fname(base.Common().StaticCallee())
 							if bn == "calendar.NewSolarFromYmd" || bn == "calendar.(*SolarWeek).GetFirstDay" {
 								k = "step"
+								counter = phi
 							}
 						}
 					}
@@ -391,19 +393,34 @@ func r15_4(c *Ctx, r *Report) {
 			}
 		}
 		sort.Strings(kinds)
-		r.check(equalStrs(kinds, []string{"first", "step"}), rule, name+" lists the first day and steps from it", c.fnPos(fn), fmt.Sprintf("pushed elements: %v", kinds))
-	}
-	if fn := c.Fn(r, rule, "calendar.(*SolarMonth).GetDays"); fn != nil {
-		bound := false
-		for _, b := range fn.Blocks {
-			if iff, ok := b.Instrs[len(b.Instrs)-1].(*ssa.If); ok {
-				s := symExpr(c, iff.Cond, nil, map[ssa.Value]string{}, 0)
-				if strings.HasSuffix(s, "< SolarUtil.GetDaysOfMonth(solarMonth.year,solarMonth.month))") {
-					bound = true
+		// the step counter starts at 1 after a separate push of the first day, or at 0 without one; step +1
+		init, step := int64(-1), int64(0)
+		var bound ssa.Value
+		if counter != nil {
+			for _, e := range counter.Edges {
+				if k, ok := constInt(e); ok {
+					init = k
+				} else if bo, ok := e.(*ssa.BinOp); ok && bo.Op == token.ADD && bo.X == ssa.Value(counter) {
+					step, _ = constInt(bo.Y)
+				}
+			}
+			if iff, ok := counter.Block().Instrs[len(counter.Block().Instrs)-1].(*ssa.If); ok {
+				if bo, ok := iff.Cond.(*ssa.BinOp); ok && bo.Op == token.LSS && bo.X == ssa.Value(counter) {
+					bound = bo.Y
 				}
 			}
 		}
-		r.check(bound, rule, "calendar.(*SolarMonth).GetDays steps while i < GetDaysOfMonth(own year, own month)", c.fnPos(fn), "21 steps for October 1582")
+		shape := (equalStrs(kinds, []string{"first", "step"}) && init == 1 && step == 1) || (equalStrs(kinds, []string{"step"}) && init == 0 && step == 1)
+		boundOK, boundDesc := false, "?"
+		if bound != nil {
+			if k, ok := constInt(bound); ok {
+				boundOK, boundDesc = name == "calendar.(*SolarWeek).GetDays" && k == 7, fmt.Sprint(k)
+			} else if call, ok := bound.(*ssa.Call); ok && call.Common().StaticCallee() != nil && fname(call.Common().StaticCallee()) == "SolarUtil.GetDaysOfMonth" {
+				boundDesc = "GetDaysOfMonth(" + describeArg(c, fn, call.Common().Args[0]) + ", " + describeArg(c, fn, call.Common().Args[1]) + ")"
+				boundOK = name == "calendar.(*SolarMonth).GetDays" && boundDesc == "GetDaysOfMonth(p0.year, p0.month)"
+			}
+		}
+		r.check(shape && boundOK, rule, name+" lists the first day and steps from it", c.fnPos(fn), fmt.Sprintf("pushed elements: %v; step counter from %d by %d while < %s", kinds, init, step, boundDesc))
 	}
 }
 
